@@ -443,12 +443,6 @@ func ParseStr(s string) ([]byte, error) {
 
 var b32 = base32.HexEncoding.WithPadding(base32.NoPadding)
 
-// EscapeFree: the Go spelling of the value needs no escape sequence (C08's exactness clause).
-func nameEscapeFree(labels [][]byte) bool {
-	s := PresentName(labels)
-	return !strings.Contains(s, "\\")
-}
-
 // ---------------------------------------------------------------- EDNS0 options and SVCB parameters: code -> Go type
 
 func newOption(code int) dns.EDNS0 {
@@ -1067,6 +1061,9 @@ func (l *Layout) ClassOf(a *RR) (cls string) {
 				return "dbit"
 			}
 		case "octet":
+			if len(asBytes(v)) > 1025 {
+				return "long-octet"
+			}
 			if bytes.IndexByte(asBytes(v), '\\') >= 0 {
 				return "backslash"
 			}
@@ -1125,91 +1122,6 @@ func (l *Layout) MsgKey(m *Msg) string {
 		return ks[0]
 	}
 	return "multi"
-}
-
-// ---------------------------------------------------------------- C08 classification
-
-var commonTypes = map[int]bool{1: true, 28: true, 2: true, 5: true, 6: true, 12: true, 15: true, 33: true, 16: true, 39: true,
-	14: true, 17: true, 18: true, 36: true, 35: true, 13: true}
-
-// Plain reports whether the message consists only of the common types of C08's exactness
-// clause with escape-free content (no name or character-string needs an escape sequence
-// in the Go spelling), and has no RDATA-less records.
-func (l *Layout) Plain(m *Msg) (plain bool) {
-	defer func() {
-		if r := recover(); r != nil {
-			plain = false
-		}
-	}()
-	for _, q := range m.Q {
-		if !nameEscapeFree(labelsOf(q.Name)) {
-			return false
-		}
-	}
-	for _, a := range m.RRs() {
-		if a.Nodata || !commonTypes[a.Type] || !nameEscapeFree(labelsOf(a.Name)) {
-			return false
-		}
-		for _, e := range l.FieldsOf(a.Type) {
-			switch e.K {
-			case "name", "cname":
-				if !nameEscapeFree(asByteSeqs(a.F[e.N])) {
-					return false
-				}
-			case "str":
-				if strings.Contains(PresentStr(asBytes(a.F[e.N])), "\\") {
-					return false
-				}
-			case "strs":
-				for _, s := range asByteSeqs(a.F[e.N]) {
-					if strings.Contains(PresentStr(s), "\\") {
-						return false
-					}
-				}
-			}
-		}
-	}
-	return true
-}
-
-// HasEscapes: some name or string of the message needs an escape in the Go spelling.
-func (l *Layout) HasEscapes(m *dns.Msg) bool {
-	has := false
-	walk := func(s string) {
-		if strings.Contains(s, "\\") {
-			has = true
-		}
-	}
-	for _, q := range m.Question {
-		walk(q.Name)
-	}
-	for _, sec := range [][]dns.RR{m.Answer, m.Ns, m.Extra} {
-		for _, rr := range sec {
-			walk(rr.Header().Name)
-			sv := reflect.ValueOf(rr).Elem()
-			var visit func(v reflect.Value)
-			visit = func(v reflect.Value) {
-				switch v.Kind() {
-				case reflect.String:
-					walk(v.String())
-				case reflect.Slice:
-					if v.Type().Elem().Kind() == reflect.String {
-						for i := 0; i < v.Len(); i++ {
-							walk(v.Index(i).String())
-						}
-					}
-				case reflect.Struct:
-					for i := 0; i < v.NumField(); i++ {
-						if v.Type().Field(i).IsExported() {
-							visit(v.Field(i))
-						}
-					}
-				}
-			}
-			visit(sv)
-		}
-	}
-	return has
 }
 
 func Stderr(f string, a ...interface{}) { fmt.Fprintf(os.Stderr, f+"\n", a...) }
